@@ -40,8 +40,20 @@ func factsDeadline() {
 			}
 		}
 		iEOF := idx(evs, 0, "if", rv+`\.closed`)
-		iHasAsg := idx(evs, 0, "assign", `^hasRDeadline := !`+rv+`\.rDeadline\.IsZero\(\)$`)
-		iHas1 := idx(evs, 0, "if", `^hasRDeadline$`)
+		// the local that remembers "a deadline is set" may have any name
+		hasVar := "hasRDeadline"
+		reHas := regexp.MustCompile(`^(\w+) := !` + rv + `\.rDeadline\.IsZero\(\)$`)
+		for _, e := range evs {
+			if e.kind == "assign" {
+				if m := reHas.FindStringSubmatch(e.text); m != nil {
+					hasVar = m[1]
+					break
+				}
+			}
+		}
+		hv := regexp.QuoteMeta(hasVar)
+		iHasAsg := idx(evs, 0, "assign", `^`+hv+` := !`+rv+`\.rDeadline\.IsZero\(\)$`)
+		iHas1 := idx(evs, 0, "if", `^`+hv+`$`)
 		iUntil := g14evIdx(evs, ifUntil, "if")
 		untilReturns := false
 		if ifUntil != nil {
@@ -62,7 +74,7 @@ func factsDeadline() {
 		}
 		iHas2 := -1
 		if iHas1 >= 0 {
-			iHas2 = idx(evs, iHas1+1, "if", `^hasRDeadline$`)
+			iHas2 = idx(evs, iHas1+1, "if", `^`+hv+`$`)
 		}
 		iBA := idx(evs, 0, "call", `^`+rv+`\.broadcastAfter\(time\.Until\(`+rv+`\.rDeadline\)\)$`)
 		iWait := idx(evs, 0, "call", `^`+rv+`\.rwCond\.Wait\(\)$`)
@@ -88,7 +100,7 @@ func factsDeadline() {
 		boolFact(g, pp.pfx+"DeadlineOrder",
 			iFor >= 0 && iFor < iEOF && iEOF < iHasAsg && iHasAsg < iHas1 && iHas1 < iUntil && untilInside && untilReturns &&
 				iUntil < iData && iData < iHas2 && armedInside && iBA < iWait && iWait < iEnd &&
-				count(evs, "if", `^hasRDeadline$`) == 2 && count(evs, "call", `broadcastAfter\(`) == 1 &&
+				count(evs, "if", `^`+hv+`$`) == 2 && count(evs, "call", `broadcastAfter\(`) == 1 &&
 				count(evs, "call", `^`+rv+`\.rwCond\.Wait\(\)$`) == 1 && count(evs, "return", `ErrTimeout`) == 1,
 			pp.typ+".Read: inside the wait loop, in this order: the `closed && empty` test (io.EOF); `hasRDeadline := !rDeadline.IsZero()`; "+
 				"`if hasRDeadline { if time.Until(rDeadline) <= 0 { return 0, ErrTimeout } }`; the has-data test (break); "+
@@ -126,14 +138,5 @@ func factsDeadline() {
 				par != "" && iIf >= 0 && iStop > iIf && iArm > iStop && e[iArm].depth == e[iIf].depth && count(e, "return", ``) == 0,
 				pp.typ+".broadcastAfter(d): `if timeoutTimer != nil { timeoutTimer.Stop() }`; timeoutTimer = time.AfterFunc(d, rwCond.Broadcast), unconditionally")
 		}
-		// nobody else writes the deadline
-		nW := 0
-		for _, fn := range pkgs[mx].funcs {
-			if fn.Body == nil {
-				continue
-			}
-			nW += count(rawEvents(fn), "assign", `\b`+rv+`\.rDeadline\b.*=[^=]`)
-		}
-		_ = nW
 	}
 }
